@@ -233,3 +233,72 @@ def check_cells_unmodified(ctx, rule):
                       f'from the cell as written')
     if not bad:
         ctx.holds(rule, run_.loc, run_.qualname, f'the cells of a record reach the tokens as the line reader produced them (`{row}`, `{cell}` never re-bound)')
+
+
+def check_stage_loop_complete(ctx, rule):
+    """The loop of export_string over the stages of the range runs to its end: no break / return inside it.  A loop that stops at
+    the first terminator in the left-most column (or at any other row) loses every later line of the range."""
+    es = ctx.prog.func(f'{N.EXPORTER}.Exporter.export_string')
+    loops = [n for n in walk_local(es.node) if isinstance(n, ast.For) and isinstance(n.iter, ast.Call) and F.is_name(n.iter.func, 'range')
+             and 'from_stage' in src(n.iter)]
+    if len(loops) != 1:
+        raise AnalysisError(f'{es.loc}: the loop over the stages of the exported range is not recognised ({len(loops)} candidates)')
+    lp = loops[0]
+
+    def exits(stmts, in_inner_loop):
+        for st in stmts:
+            if isinstance(st, ast.Break) and not in_inner_loop:
+                yield st
+            elif isinstance(st, ast.Return):
+                yield st
+            elif isinstance(st, (ast.For, ast.While)):
+                yield from exits(st.body, True)
+                yield from exits(st.orelse, in_inner_loop)
+            elif isinstance(st, ast.If):
+                yield from exits(st.body, in_inner_loop)
+                yield from exits(st.orelse, in_inner_loop)
+            elif isinstance(st, ast.Try):
+                for blk in (st.body, st.orelse, st.finalbody, *[h.body for h in st.handlers]):
+                    yield from exits(blk, in_inner_loop)
+            elif isinstance(st, ast.With):
+                yield from exits(st.body, in_inner_loop)
+    found = list(exits(lp.body, False))
+    for st in found:
+        ctx.violation(rule, f'{es.module.relpath}:{st.lineno}', es.qualname, 'stage-loop-cut-short',
+                      f'`{src(st)[:40]}` leaves the loop over the stages of the range before its last stage: the lines after that point '
+                      f'(and the barline that closes the range) are not exported')
+    if not found:
+        ctx.holds(rule, f'{es.module.relpath}:{lp.lineno}', es.qualname, 'the loop over the stages of the range always runs to the last stage')
+
+
+def no_shared_mutable_defaults(ctx, rule):
+    """A mutable default value ({} [] set() dict() list()) exists once per function, not once per call.  If the parameter is kept
+    in an object (`self.x = p`), changed in place or returned, every object built without that argument shares it: what one
+    import records shows up in the documents of all the others."""
+    n = 0
+    for f in ctx.prog.all_functions():
+        if f.module.generated or getattr(f.module, 'legacy', False) or isinstance(f.node, ast.Lambda):
+            continue
+        a = f.node.args
+        pos = a.posonlyargs + a.args
+        pairs = list(zip(pos[len(pos) - len(a.defaults):], a.defaults)) + [(x, d) for x, d in zip(a.kwonlyargs, a.kw_defaults) if d is not None]
+        for arg, d in pairs:
+            mutable = isinstance(d, (ast.Dict, ast.List, ast.Set, ast.ListComp, ast.DictComp, ast.SetComp)) or \
+                (isinstance(d, ast.Call) and isinstance(d.func, ast.Name) and d.func.id in ('dict', 'list', 'set', 'defaultdict', 'OrderedDict', 'deque'))
+            if not mutable:
+                continue
+            n += 1
+            p = arg.arg
+            kept = [x for x in walk_local(f.node) if isinstance(x, (ast.Assign, ast.AnnAssign)) and getattr(x, 'value', None) is not None
+                    and F.is_name(x.value, p) and any(isinstance(t, (ast.Attribute, ast.Subscript)) for t in (x.targets if isinstance(x, ast.Assign) else [x.target]))]
+            changed = [x for x in walk_local(f.node) if isinstance(x, ast.Call) and isinstance(x.func, ast.Attribute) and F.is_name(x.func.value, p)
+                       and x.func.attr in ('append', 'extend', 'insert', 'add', 'update', 'setdefault', 'pop', 'remove', 'clear', 'sort')]
+            changed += [x for x in walk_local(f.node) if isinstance(x, (ast.Assign, ast.AugAssign)) and any(
+                isinstance(t, ast.Subscript) and F.is_name(t.value, p) for t in (x.targets if isinstance(x, ast.Assign) else [x.target]))]
+            returned = [x for x in walk_local(f.node) if isinstance(x, ast.Return) and x.value is not None and F.is_name(x.value, p)]
+            hit = (kept or changed or returned)
+            ctx.check(not hit, rule, f'{f.module.relpath}:{d.lineno}', f.qualname, f'shared-mutable-default:{p}',
+                      f'the mutable default of `{p}` is only read',
+                      f'`{p}={src(d)}` is one object for all calls and `{src(hit[0])[:60]}` keeps / changes / hands it out: every '
+                      f'{f.cls.name if f.cls else "caller"} built without `{p}` shares it, so data recorded for one document appears in the others' if hit else '')
+    ctx.count(f'{rule}.mutable_defaults', n)
